@@ -3,11 +3,17 @@
 //   c02_ops sets <seed>                   print the symbol sets (`ss …` lines for the Lean driver);
 //                                         sets 0..8 are fixed, 9..14 are generated from <seed>
 //   c02_ops run <seed> <first> <last>     run scenarios first..last-1 (deterministic in seed, index)
+//   c02_ops replay <seed> [reps] < requests   `<op> <ss> <params> <pre individuals>`, e.g.
+//                                         `mutation <ss> <env code_length> <env patch_length> <zero?> IND`
 //   c02_ops big                           admissibility probe for very long genomes
 //
 // `run` executes REAL operator calls (i_mep(problem), mutation, crossover with every flavour
 // forced through the VITA_VERIF hook, get_block, replace, destroy_block, cse, and the team
 // counterparts) on real individuals and prints, for every call,
+// (the ENVIRONMENT of the problem – code_length, patch_length, team size – is edited between the
+// calls of a history: an operator receives individuals / teams that were built under an earlier
+// environment, shorter or longer than the current code_length, possibly no longer than the current
+// patch_length; the pool holds individuals of different sizes)
 //
 //   L <op> <ss> <params> <pre individuals> <post individuals>       (request for the Lean driver)
 //   O <scenario> <op#> <op> wf=<0|1> step=<0|1> valid=<0|1> exec=<ok|exc> expect=<ok|bad> why=<text>
@@ -398,7 +404,8 @@ struct oracle
   bool fresh_ok(const gene &g, index_t i, category_t c, index_t rows, category_t cols, index_t pl)
   {
     if (!gene_ok(g, i, c, rows, cols)) return false;
-    if (i >= rows - pl && g.sym->arity()) return fail("function-in-patch");
+    // the last `pl` rows (all of them when the individual is no longer than `pl`) hold terminals
+    if ((pl >= rows || i >= rows - pl) && g.sym->arity()) return fail("function-in-patch");
     return true;
   }
 
@@ -685,16 +692,28 @@ struct runner
     return x;
   }
 
-  i_mep op_mutation(unsigned id, index_t pl, double pgm, const i_mep &a)
+  // how the size of an operand relates to the environment the operator is given
+  void env_note(const problem &p, index_t size)
+  {
+    const index_t cl = p.env.mep.code_length, pl = p.env.mep.patch_length;
+    note("envlen", cl);
+    note("szenv", size < cl ? 0 : size == cl ? 1 : 2);      // shorter / equal / longer than code_length
+    note("szpl", size < pl ? 0 : size == pl ? 1 : 2);       // shorter / equal / longer than patch_length
+  }
+
+  // mutation under the environment the problem holds NOW (not necessarily the one `a` was built under)
+  i_mep op_mutation(unsigned id, double pgm, const i_mep &a)
   {
     setinfo &si = *sets[id];
     oracle o{si};
     i_mep x(a);
+    const index_t cl = si.prob.env.mep.code_length, pl = si.prob.env.mep.patch_length;
     // the returned count is only known after the call: it closes the request
-    begin("mutation" + N(id) + N(pl) + N(pgm == 0.0 ? 1 : 0) + S(a));
+    begin("mutation" + N(id) + N(cl) + N(pl) + N(pgm == 0.0 ? 1 : 0) + S(a));
     const unsigned n = x.mutation(pgm, si.prob);
     const bool st = o.mutation_step(a, x, pl, n, pgm == 0.0), wf = o.wf(x);
-    shape(id, x); note("pl", pl); note("pgm%", int(pgm * 100)); note("n", n); trans_add(a, x); trans_note();
+    shape(id, x); note("pl", pl); env_note(si.prob, a.size());
+    note("pgm%", int(pgm * 100)); note("n", n); trans_add(a, x); trans_note();
     note("trivial", o.changed(a, x) == 0);
     end("mutation", S(x) + N(n), wf, st, wf && x.is_valid(), wf ? exec(x) : "skipped", true, o.why);
     last_ok = wf;
@@ -824,13 +843,14 @@ struct runner
     return t;
   }
 
-  team_t op_tmutation(unsigned id, index_t pl, double pgm, const team_t &a)
+  team_t op_tmutation(unsigned id, double pgm, const team_t &a)
   {
     setinfo &si = *sets[id];
     oracle o{si};
     const unsigned k = a.individuals();
     team_t t(a);
-    begin("tmutation" + N(id) + N(pl) + N(pgm == 0.0 ? 1 : 0) + N(k) + ST(a));
+    const index_t cl = si.prob.env.mep.code_length, pl = si.prob.env.mep.patch_length;
+    begin("tmutation" + N(id) + N(cl) + N(pl) + N(pgm == 0.0 ? 1 : 0) + N(k) + ST(a));
     const unsigned n = t.mutation(pgm, si.prob);
     bool st = t.individuals() == k;
     unsigned tot = 0;
@@ -842,6 +862,12 @@ struct runner
     }
     if (st && tot != n) { st = false; o.fail("team-mutation-count"); }
     note("set", id); note("rows", a[0].size()); note("team", k); note("n", n); note("trivial", tot == 0);
+    note("pl", pl); note("envteam", si.prob.env.team.individuals);
+    {
+      index_t mn = a[0].size(), mx = a[0].size();
+      for (unsigned m = 0; m < k; ++m) { mn = std::min<index_t>(mn, a[m].size()); mx = std::max<index_t>(mx, a[m].size()); }
+      env_note(si.prob, mn); note("mixed", mn != mx);
+    }
     for (unsigned m = 0; m < k && m < t.individuals(); ++m) { hist_add(t[m]); trans_add(a[m], t[m]); }
     hist_note(); trans_note();
     const bool wf = twf(o, t, k);
@@ -920,7 +946,28 @@ struct runner
   }
 
   // ---- scenarios
-  void individual_scenario(unsigned id, index_t len, index_t pl, unsigned hist)
+  // The environment of the problem is EDITED during a history (`problem` is a long-lived, mutable
+  // object and the operators receive it as a parameter): `code_length` and `patch_length` are raised
+  // or lowered between the creation of an individual and its mutation / crossover / replace …, new
+  // individuals are built under the new environment, so the pool holds individuals of different
+  // sizes, shorter and longer than the current code_length, some no longer than the current
+  // patch_length.  `drift` = 0: the environment never changes (every operand was built under it).
+  static constexpr index_t LENS[] = {2, 3, 4, 5, 6, 7, 8, 10, 12, 16, 20, 24, 32, 48, 64};
+
+  void new_env(problem &p, index_t cap)
+  {
+    index_t len = LENS[rng.below(15)];
+    if (rng.below(4) == 0) len = index_t(2 + rng.below(63));
+    if (rng.below(3) == 0)                                   // one off the current value, either side
+      len = rng.below(2) ? p.env.mep.code_length + 1 : std::max<index_t>(3, p.env.mep.code_length) - 1;
+    len = std::min(len, cap);
+    index_t pl = 1;
+    if (rng.below(2) == 0) pl = index_t(1 + rng.below(len - 1));       // 1 .. len-1
+    p.env.mep.code_length = len;
+    p.env.mep.patch_length = pl;
+  }
+
+  void individual_scenario(unsigned id, index_t len, index_t pl, unsigned hist, unsigned drift)
   {
     setinfo &si = *sets[id];
     problem &p = si.prob;
@@ -930,28 +977,43 @@ struct runner
     unsigned flav = unsigned(rng.below(4));
 
     auto add = [&](const i_mep &x)
-    { if (!last_ok) return; if (pool.size() < 6) pool.push_back(x); else pool.set(rng.below(pool.size()), x); };
+    { if (!last_ok) return; if (pool.size() < 8) pool.push_back(x); else pool.set(rng.below(pool.size()), x); };
 
     const unsigned n0 = 2 + unsigned(rng.below(3));
     for (unsigned k = 0; k < n0; ++k)
     {
-      const i_mep x(op_random(id, pl));
+      const i_mep x(op_random(id, p.env.mep.patch_length));
       if (last_ok) pool.push_back(x);
     }
     if (pool.empty()) return;
 
     for (unsigned h = 0; h < hist && last_ok; ++h)
     {
+      if (drift && (h == 0 || rng.below(drift == 1 ? 8 : 3) == 0))
+      {
+        // the user edits the environment; individuals built from now on have the new geometry
+        new_env(p, 64);
+        note("drift", 1);
+        const unsigned nn = unsigned(rng.below(3));
+        for (unsigned k = 0; k < nn && last_ok; ++k)
+          add(op_random(id, p.env.mep.patch_length));
+        if (!last_ok) break;
+      }
       const unsigned r = unsigned(rng.below(100));
       const i_mep a(pool[rng.below(pool.size())]);
-      if (r < 25)
+      const index_t alen = a.size();
+      if (r < 30)
       {
         static const double ps[] = {0.0, 0.05, 0.3, 0.7, 1.0};
-        add(op_mutation(id, pl, ps[rng.below(5)], a));
+        add(op_mutation(id, ps[rng.below(5)], a));
       }
       else if (r < 60)
       {
-        i_mep l(a), rr(pool[rng.below(pool.size())]);
+        // the second parent: an individual of the same size (crossover's precondition)
+        std::vector<std::size_t> same;
+        for (std::size_t k = 0; k < pool.size(); ++k)
+          if (pool[k].size() == alen) same.push_back(k);
+        i_mep l(a), rr(pool[same[rng.below(same.size())]]);
         if (rng.below(10) < 8)
         {
           flav = (flav + 1) % 4;
@@ -962,7 +1024,7 @@ struct runner
       }
       else if (r < 68)
       {
-        locus l{index_t(rng.below(len)), category_t(rng.below(a.categories()))};
+        locus l{index_t(rng.below(alen)), category_t(rng.below(a.categories()))};
         const auto bl(a.blocks());
         if (!bl.empty() && rng.below(10) < 6)
           l = *std::next(bl.begin(), long(rng.below(bl.size())));
@@ -972,14 +1034,14 @@ struct runner
       {
         const bool at_best = rng.below(4) == 0;
         const locus l = at_best ? a.best()
-                                : locus{index_t(rng.below(len)), category_t(rng.below(a.categories()))};
+                                : locus{index_t(rng.below(alen)), category_t(rng.below(a.categories()))};
         // a compatible gene, built with the library's own constructors
-        const gene g = l.index + 1 < len ? gene(p.sset.roulette(l.category), l.index + 1, len)
-                                         : gene(p.sset.roulette_terminal(l.category));
+        const gene g = l.index + 1 < alen ? gene(p.sset.roulette(l.category), l.index + 1, alen)
+                                          : gene(p.sset.roulette_terminal(l.category));
         add(op_replace(id, a, l, g, at_best, true));
       }
       else if (r < 85)
-        add(op_destroy(id, a, index_t(rng.below(len))));
+        add(op_destroy(id, a, index_t(rng.below(alen))));
       else if (r < 90)
         add(op_incage(id, a));
       else if (r < 97)
@@ -989,27 +1051,27 @@ struct runner
         // malformed stream: replace() with an INCOMPATIBLE gene really builds an ill-formed
         // individual (release build); both checkers must reject it.  Never executed, never reused.
         std::vector<locus> fl;
-        for (index_t i = 0; i < len; ++i)
+        for (index_t i = 0; i < alen; ++i)
           for (category_t c = 0; c < a.categories(); ++c)
             if (a[{i, c}].sym->arity()) fl.push_back({i, c});
         const unsigned kind = unsigned(rng.below(4));
-        locus l{index_t(rng.below(len)), category_t(rng.below(a.categories()))};
+        locus l{index_t(rng.below(alen)), category_t(rng.below(a.categories()))};
         gene g(a[l]);
         if (kind == 3)
         {
           // argument count != arity: one argument too few / too many (possibly a terminal carrying one)
           if (!fl.empty() && rng.below(3)) { l = fl[rng.below(fl.size())]; g = a[l]; }
           if (g.args.size() && rng.below(2)) g.args.resize(g.args.size() - 1);
-          else g.args.push_back(gene::packed_index_t(std::min<index_t>(l.index + 1, len - 1)));
+          else g.args.push_back(gene::packed_index_t(std::min<index_t>(l.index + 1, alen - 1)));
         }
         else if (kind == 0 && !fl.empty())
         { l = fl[rng.below(fl.size())]; g = a[l]; g.args[rng.below(g.args.size())] = gene::packed_index_t(l.index); }
         else if (kind == 1 && !fl.empty())
-        { l = fl[rng.below(fl.size())]; g = a[l]; g.args[rng.below(g.args.size())] = gene::packed_index_t(len + rng.below(3)); }
+        { l = fl[rng.below(fl.size())]; g = a[l]; g.args[rng.below(g.args.size())] = gene::packed_index_t(alen + rng.below(3)); }
         else if (a.categories() > 1)
           g = a[{l.index, (l.category + 1) % a.categories()}];            // wrong column
         else if (!fl.empty())
-        { g = a[fl[0]]; l = {len - 1, 0}; }                                // a function in the last row
+        { g = a[fl[0]]; l = {alen - 1, 0}; }                               // a function in the last row
         else
           continue;
 #if defined(NDEBUG)
@@ -1020,7 +1082,17 @@ struct runner
     }
   }
 
-  void team_scenario(unsigned id, index_t len, index_t pl, unsigned hist, unsigned k)
+  // two teams can be recombined when they have the same number of members and corresponding
+  // members have the same size (the preconditions of crossover(team, team) / crossover(i_mep, i_mep))
+  static bool team_compatible(const team_t &a, const team_t &b)
+  {
+    if (a.individuals() != b.individuals()) return false;
+    for (unsigned m = 0; m < a.individuals(); ++m)
+      if (a[m].size() != b[m].size()) return false;
+    return true;
+  }
+
+  void team_scenario(unsigned id, index_t len, index_t pl, unsigned hist, unsigned k, unsigned drift)
   {
     setinfo &si = *sets[id];
     problem &p = si.prob;
@@ -1030,30 +1102,48 @@ struct runner
     unsigned flav = unsigned(rng.below(4));
     for (unsigned j = 0; j < 2; ++j)
     {
-      const team_t t(op_trandom(id, pl, k));
+      const team_t t(op_trandom(id, p.env.mep.patch_length, k));
       if (last_ok) pool.push_back(t);
     }
     if (pool.empty()) return;
     for (unsigned h = 0; h < hist && last_ok; ++h)
     {
+      if (drift && (h == 0 || rng.below(drift == 1 ? 6 : 3) == 0))
+      {
+        // new geometry AND a new team size; teams built from now on follow the new environment
+        new_env(p, 24);
+        if (rng.below(2)) k = 1 + unsigned(rng.below(6));
+        note("drift", 1);
+        if (rng.below(2))
+        {
+          const team_t t(op_trandom(id, p.env.mep.patch_length, k));
+          if (!last_ok) break;
+          if (pool.size() < 5) pool.push_back(t); else pool.set(rng.below(pool.size()), t);
+        }
+        else
+          p.env.team.individuals = k;       // only the stored team size changes
+      }
       const team_t a(pool[rng.below(pool.size())]);
+      const unsigned ka = a.individuals();
       team_t t;
       const unsigned r = unsigned(rng.below(20));
       if (r < 8)
       {
         static const double ps[] = {0.0, 0.1, 0.5, 1.0};
-        t = op_tmutation(id, pl, ps[rng.below(4)], a);
+        t = op_tmutation(id, ps[rng.below(4)], a);
       }
       else if (r < 10)
         t = op_tincage(id, a);
       else if (r < 12)
       {
-        // a team assembled from members of (possibly different) teams of the pool and fresh individuals
+        // a team assembled from members of (possibly different) teams of the pool – hence possibly of
+        // different sizes – and fresh individuals
         std::vector<i_mep> v;
-        for (unsigned m = 0; m < k && last_ok; ++m)
+        const unsigned kv = drift && rng.below(3) == 0 ? 1 + unsigned(rng.below(6)) : ka;
+        for (unsigned m = 0; m < kv && last_ok; ++m)
         {
           const team_t &src = pool[rng.below(pool.size())];
-          if (rng.below(4) == 0) v.push_back(op_random(id, pl));
+          if (rng.below(4) == 0) v.push_back(op_random(id, p.env.mep.patch_length));
           else v.push_back(src[unsigned(rng.below(src.individuals()))]);
         }
         if (!last_ok) break;
@@ -1061,15 +1151,18 @@ struct runner
       }
       else
       {
-        const team_t &b = pool[rng.below(pool.size())];
+        std::vector<std::size_t> comp;
+        for (std::size_t j = 0; j < pool.size(); ++j)
+          if (team_compatible(a, pool[j])) comp.push_back(j);
+        const team_t &b = comp.empty() ? a : pool[comp[rng.below(comp.size())]];
         std::vector<i_mep> va(a.begin(), a.end()), vb(b.begin(), b.end());
-        for (unsigned m = 0; m < k; ++m)      // ageing, as the evolution loop does
+        for (unsigned m = 0; m < ka; ++m)      // ageing, as the evolution loop does
         {
           if (rng.below(3) == 0) va[m].inc_age();
           if (rng.below(4) == 0) vb[m].inc_age();
         }
         if (rng.below(10) < 8)
-          for (unsigned m = 0; m < k; ++m)
+          for (unsigned m = 0; m < ka; ++m)
           {
             flav = (flav + 1) % 4;
             va[m].verif_crossover_type(i_mep::crossover_t(flav));
@@ -1078,7 +1171,7 @@ struct runner
         t = op_tcrossover(id, team_t(va), team_t(vb));
       }
       if (!last_ok) break;
-      if (pool.size() < 4) pool.push_back(t); else pool.set(rng.below(pool.size()), t);
+      if (pool.size() < 5) pool.push_back(t); else pool.set(rng.below(pool.size()), t);
     }
   }
 
@@ -1090,21 +1183,22 @@ struct runner
     watchdog(20);
     rng = verif::splitmix(seed * 1000003ull + k);
     vita::random::seed(unsigned(rng.next() & 0x7fffffff));
-    static const index_t lens[] = {2, 3, 4, 5, 6, 7, 8, 10, 12, 16, 20, 24, 32, 48, 64};
     const unsigned id = k % NSETS;
-    index_t len = lens[(k / NSETS) % 15];
+    index_t len = LENS[(k / NSETS) % 15];
     if (rng.below(8) == 0) len = index_t(2 + rng.below(63));
     index_t pl = 1;
     if (rng.below(3) == 0) pl = index_t(1 + rng.below(len - 1));       // 1 .. len-1
     const unsigned hist = 1 + unsigned(rng.below(40));
     const bool team_mode = rng.below(5) == 0;
-    if (team_mode && len > 24) { len = lens[rng.below(10)]; pl = std::min(pl, len - 1); }
+    if (team_mode && len > 24) { len = LENS[rng.below(10)]; pl = std::min(pl, len - 1); }
+    // 0: the environment is never edited; 1: now and then; 2: often
+    const unsigned drift = unsigned(rng.below(3));
     std::cout << "S " << k << " set=" << id << " len=" << len << " pl=" << pl << " hist=" << hist
-              << " team=" << team_mode << "\n";
+              << " team=" << team_mode << " drift=" << drift << "\n";
     if (team_mode)
-      team_scenario(id, len, pl, std::min(hist, 12u), 1 + unsigned(rng.below(6)));
+      team_scenario(id, len, pl, std::min(hist, 12u), 1 + unsigned(rng.below(6)), drift);
     else
-      individual_scenario(id, len, pl, hist);
+      individual_scenario(id, len, pl, hist, drift);
   }
 
   // ---- replay of explicit requests (corpus, replay files):
@@ -1151,9 +1245,11 @@ struct runner
     if (op == "random")
     { const index_t pl = rd.u(), len = rd.u(); si.prob.env.mep.code_length = len; si.prob.env.mep.patch_length = pl; op_random(id, pl); }
     else if (op == "mutation")
-    { const index_t pl = rd.u(); const bool z = rd.u(); const i_mep a(read_ind(rd, si)); fit(a, pl);
+    { // the environment handed to mutation is part of the request (it need not fit the individual)
+      const index_t cl = rd.u(), pl = rd.u(); const bool z = rd.u(); const i_mep a(read_ind(rd, si));
+      si.prob.env.mep.code_length = cl; si.prob.env.mep.patch_length = pl;
       static const double ps[] = {0.05, 0.3, 0.7, 1.0};
-      op_mutation(id, pl, z ? 0.0 : ps[rng.below(4)], a); }
+      op_mutation(id, z ? 0.0 : ps[rng.below(4)], a); }
     else if (op == "crossover")
     { const i_mep l(read_ind(rd, si)), r(read_ind(rd, si)); fit(l, 1); op_crossover(id, l, r); }
     else if (op == "getblock")
